@@ -1,5 +1,6 @@
 """C07 — equivalent descriptions of the same survey give the same adjustment."""
 import json
+import math
 import os
 import random
 import re
@@ -11,6 +12,7 @@ from pathlib import Path
 from lib.core import *
 from gen import c05_linearization as tr
 from gen import c07_meta as M
+from gen import c09_stats as tr_stats
 
 ID = "C07"
 PROPS_FILES = ["Gama/Props/C07.lean"]
@@ -76,6 +78,16 @@ ALGS = ["envelope", "gso", "svd", "cholesky"]
 def translate(ctx):
     # the theorems are about the generated linearisation: make sure it is the current tree's
     tr.translate(ctx.repo, ctx.lean)
+    # C07_ellipse_transport is about the std_error_ellipse regenerated by C09's translator
+    try:
+        text = tr_stats.gen(ctx.repo)
+    except tr_stats.Unreadable as e:
+        raise TieBroken("c09_stats translator", str(e))
+    except (OSError, IndexError, ValueError, KeyError) as e:
+        raise TieBroken("c09_stats translator", repr(e))
+    f = ctx.lean / "Gama" / "Gen" / "StatsGen.lean"
+    if not f.exists() or f.read_text() != text:
+        f.write_text(text)
 
 
 def build_harness(ctx):
@@ -139,6 +151,14 @@ def dms_text(rng):
         t = f"{rng.uniform(0, 400):.6f}"
     elif r < 0.28:
         t = f"{d}-{m}-"
+    elif r < 0.40:
+        # the rest of the language of the shared model (Angles.deg2gon): white space, explicit sign, exponents,
+        # seconds without fraction digits, signs inside (rejected), huge fields (rejected)
+        v = rng.randint(0, 9)
+        sec = [f"{rng.randint(0, 59)}e0", f"{rng.randint(1, 5)}e1", f"{rng.randint(0, 599)}E-1", "5.", "1e", "1e+", ".5",
+               "1e400", "0.5e-400", "-3"][v]
+        t = rng.choice(["", " ", "\t ", "+", " +", "-"]) + f"{d}-{rng.choice([str(m), '+' + str(m), ' ' + str(m), '99999999999'])}-{sec}" + \
+            rng.choice(["", " ", "\n"])
     return t
 
 
@@ -249,6 +269,14 @@ def correspond_input(ctx, corr, tmp):
         if i in crashes:
             corr.fail("harness crashed (sanitizer or exception)", {"stream": "input", "ops": c}, site="c07_input", detail=crashes[i][1])
             continue
+        if k[0] == "flip" and impl[i]:
+            # oracle on the implementation's own answers (C07_remove_inconsistency): a second remove_inconsistency is a no-op
+            seg = [x.strip() for x in impl[i][0].split("#")]
+            if len(seg) == 3 and seg[0].startswith("ok ") and seg[0][3:].strip() != seg[1]:
+                gkf = Path(c[0].split()[1])
+                corr.fail("remove_inconsistency is not idempotent (a second call changes points / observations / covariances)",
+                          {"stream": "input", "ops": c, "impl": impl[i], "gkf": gkf.read_text() if gkf.exists() else None},
+                          site="LocalNetwork::remove_inconsistency")
         # flip: values are angular observations normalised by the constructors (norm_rad_val) -> tolerant on those only
         rt = 1e-12 if k[0] == "flip" else 0.0
         if len(impl[i]) != len(model[i]) or not all(lines_equal(a, b, rtol=rt, atol=rt) for a, b in zip(impl[i], model[i])):
@@ -278,6 +306,208 @@ def correspond_input(ctx, corr, tmp):
         corr.inconclusive.append("PointID generator produced too few numeric / equal pairs")
     if flips < 5:
         corr.inconclusive.append("too few inconsistent axes/angles networks in the flip stream")
+
+
+# ------------------------------------------------------------------ (c) wrap stream: angular right-hand sides at the seam
+# The generated linearisation's wrap loops are proved (C05/C07) to reduce the misclosure to (-200, 200] gon.  This
+# stream evaluates the REAL LocalLinearization on a grid of (observed value, orientation, bearing) triples whose
+# misclosure sits at every multiple of 200 gon with tiny offsets of both signs, and compares with the mathematical
+# reduction.  A hit is realised as a network for the end-to-end oracle (circle rotation pair).
+WRAP_OFFS = [0.0] + [s_ * d_ for d_ in (1e-4, 2e-4, 5e-4, 1e-3, 3e-3) for s_ in (1, -1)]
+G2R = math.pi / 200.0
+R2CC = 200.0e4 / math.pi
+WRAP_TOL_CC = 1e-3
+
+
+def _polar(bearing_gon, dist=100.0):
+    return dist * math.cos(bearing_gon * G2R), dist * math.sin(bearing_gon * G2R)
+
+
+def _c_bearing(dx, dy):
+    b = math.atan2(dy, dx)
+    return b if b >= 0 else b + 2 * math.pi
+
+
+def wrap_cases(ctx):
+    """[(op line, info)]: info = kind, gon values of the triple, the intended misclosure"""
+    rng = ctx.rng
+    out = []
+
+    def add(kind, cs, rh, v, o, bt, bf, a_gon):
+        tx, ty = _polar(bt)
+        fx, fy = _polar(bf, 80.0)
+        line = " ".join(["wrap", kind, str(cs), str(rh), float2hex(v * G2R), float2hex(o * G2R), float2hex(tx), float2hex(ty),
+                         float2hex(fx), float2hex(fy)])
+        out.append((line, {"kind": kind, "v": v, "o": o, "bt": bt, "bf": bf, "a": a_gon, "cs": cs, "rh": rh,
+                           "t": (tx, ty), "f": (fx, fy)}))
+
+    near = lambda: rng.choice([0.0, 1e-4, 2e-4, 1e-3, 399.9999, 399.9998, 399.999, 200.0, 100.0])
+    for k in range(-4, 7):                      # direction: a = v + o - bearing, any multiple of 200 gon in [-800, 1200]
+        for d in WRAP_OFFS:
+            a = 200.0 * k + d
+            for j in range(4):
+                v = rng.uniform(0, 400) if j < 2 else near()
+                bt = rng.uniform(0, 400) if j % 2 == 0 else near()
+                add("Direction", 4, 0, v, a - v + bt, bt, 0.0, a)
+            # realisable triples: v, o, bearing all in [0, 400) and the misclosure a multiple of 400 gon (+ offset)
+            if k % 2 == 0 and -2 <= k <= 4:
+                for _ in range(4):
+                    e1, e2 = abs(rng.choice(WRAP_OFFS[1:])), abs(rng.choice(WRAP_OFFS[1:]))
+                    if k == -2:
+                        v, o = e1, e2                  # tiny reading, tiny orientation, bearing just below 400
+                    elif k == 0:
+                        v, o = rng.uniform(1, 399), None
+                    elif k == 2:
+                        v, o = rng.uniform(200, 399.9), None
+                    else:
+                        v, o = 400 - e1, 400 - e2      # reading and orientation just below 400, tiny bearing
+                    if o is None:
+                        bt = rng.uniform(0, 400)
+                        o = a - v + bt
+                    else:
+                        bt = v + o - a
+                    if 0 <= o < 400 and 0 <= bt < 400 and 0 <= v < 400:
+                        add("Direction", 4, 0, v, o, bt, 0.0, a)
+    for k in (-2, -1, 0, 1, 2):                 # angle: a = v - (bearing(fs) - bearing(bs) mod 400), a in (-400, 400)
+        for d in WRAP_OFFS:
+            a = 200.0 * k + d
+            if not -400 < a < 400:
+                continue
+            lo, hi = max(0.0, -a), min(400.0, 400.0 - a)
+            for j in range(3):
+                ds = lo + (hi - lo) * (0.5 if j == 0 or hi - lo < 1e-2 else rng.random())
+                if not (0 <= ds < 400 and 0 <= a + ds < 400):
+                    continue
+                bt = rng.uniform(0, 400)
+                add("Angle", 4, 0, a + ds, 0.0, bt, (bt + ds) % 400.0, a)
+    for cs, rh in ((4, 0), (5, 0), (0, 0), (3, 0), (0, 1), (1, 1), (4, 1), (6, 1)):   # azimuth: a = v + xNorth - bearing
+        xn = ((M_XNORTH[cs] if not rh else (400 - M_XNORTH[cs])) % 400)
+        for k in range(-2, 4):
+            for d in WRAP_OFFS:
+                a = 200.0 * k + d
+                lo, hi = max(0.0, xn - a), min(400.0, 400.0 + xn - a)       # bearing range so that v in [0, 400)
+                if hi <= lo:
+                    continue
+                bt = lo + (hi - lo) * (0.5 if hi - lo < 1e-2 else rng.random())
+                v = a - xn + bt
+                if 0 <= v < 400 and 0 <= bt < 400:
+                    add("Azimuth", cs, rh, v, 0.0, bt, 0.0, a)
+    return out
+
+
+# PointData::xNorthAngle, left-handed value in gon, by enum position (EN, NW, SE, WS, NE, SW, ES, WN); used only to
+# place the azimuth grid (the comparison takes the value the harness prints)
+M_XNORTH = {0: 300, 1: 400, 2: 200, 3: 100, 4: 400, 5: 200, 6: 300, 7: 100}
+
+
+def wrap_expected(info, value, xnorth):
+    """misclosure in cc as the code forms it, and its reduction to (-200e4, 200e4]"""
+    sb = _c_bearing(info["t"][0], info["t"][1])
+    if info["kind"] == "Direction":
+        a = (value + info["o"] * G2R - sb) * R2CC
+    elif info["kind"] == "Azimuth":
+        a = (value + xnorth - sb) * R2CC
+    else:
+        ds = _c_bearing(info["f"][0], info["f"][1]) - sb
+        if ds < 0:
+            ds += 2 * math.pi
+        a = (value - ds) * R2CC
+    return a, a - 400e4 * math.ceil((a - 200e4) / 400e4)
+
+
+def wrap_network(info, c0=57.3):
+    """a network in which gama-local meets the triple of a Direction hit: station S, the target G whose
+    approximate position has the bearing of the hit while its reading closes on the true position, three more
+    targets that fix the approximate orientation at the hit's value.  Returns (net_a, spec): net_a has the set
+    turned by +c0 (away from the seam), spec turns it back onto the hit."""
+    v, o, bt = info["v"], info["o"], info["bt"]
+    eps = (v + o - bt + 200.0) % 400.0 - 200.0            # misclosure modulo 400 gon: tiny
+    S = {"x": 1000.0, "y": 1000.0, "status": "fix"}
+    pts = {"S": S}
+    at = lambda b, d: {"x": S["x"] + d * math.cos(b * G2R), "y": S["y"] + d * math.sin(b * G2R)}
+    true_g = at(bt + eps, 100.0)
+    pts["G"] = dict(at(bt, 100.0), status="adj")          # approximate position: bearing of the hit
+    others = {"A": (bt + 110.0, 180.0), "B": (bt + 205.0, 150.0), "C": (bt + 290.0, 220.0)}
+    for pid, (b, d) in others.items():
+        pts[pid] = dict(at(b % 400.0, d), status="fix")
+    items = [{"t": "direction", "to": "G", "val": v % 400.0, "stdev": 10.0}]
+    for pid, (b, d) in others.items():
+        items.append({"t": "direction", "to": pid, "val": (G_bearing(S, pts[pid]) - o) % 400.0, "stdev": 10.0})
+    items.append({"t": "distance", "to": "G", "val": math.hypot(true_g["x"] - S["x"], true_g["y"] - S["y"]), "stdev": 5.0})
+    obs = [{"kind": "obs", "from": "S", "items": items}]
+    for pid in ("A", "B"):
+        obs.append({"kind": "obs", "from": pid, "items": [
+            {"t": "distance", "to": "G", "val": math.hypot(true_g["x"] - pts[pid]["x"], true_g["y"] - pts[pid]["y"]), "stdev": 5.0}]})
+    net_b = {"dim": 2, "points": pts, "obs": obs, "family": "wrap-realised",
+             "params": {"sigma-apr": 10, "conf-pr": 0.95, "tol-abs": 1000, "sigma-act": "aposteriori"}}
+    for ci, ob in enumerate(net_b["obs"]):
+        ob["cid"] = str(ci)
+        for ii, it in enumerate(ob["items"]):
+            it["uid"] = f"{ci}.{ii}"
+    net_a, _ = M.t_rotate(net_b, {"kind": "rotate", "c": {"0": c0}})
+    return net_a, {"kind": "rotate", "c": {"0": -c0}}
+
+
+def G_bearing(p, q):
+    return (math.atan2(q["y"] - p["y"], q["x"] - p["x"]) / G2R) % 400.0
+
+
+def wrap_stream(ctx, corr, tmp, gama_dir=None):
+    """always-on: real LocalLinearization vs the mathematical reduction on the seam grid; hits are realised e2e"""
+    exe = build_harness(ctx)
+    cases = wrap_cases(ctx)
+    impl, crashes = run_cases(exe, [[c[0]] for c in cases])
+    hits = []
+    for i, (line, info) in enumerate(cases):
+        corr.case(key=("wrap", line), sample={"op": line[:120], "impl": (impl[i] or ["?"])[0][:100]} if i % 211 == 0 else None)
+        corr.count("wrap_" + info["kind"])
+        if i in crashes or not impl[i] or not impl[i][0].startswith("lin "):
+            corr.fail("LocalLinearization threw / crashed on a seam triple", {"stream": "wrap", "ops": [line], "impl": impl[i]},
+                      site="LocalLinearization::" + info["kind"].lower(), detail=str(crashes.get(i, impl[i]))[:300])
+            continue
+        t = impl[i][0].split()
+        value, rhs, xn = hex2float(t[1]), hex2float(t[2]), hex2float(t[3])
+        a, want = wrap_expected(info, value, xn)
+        turns = (rhs - a) / 400e4
+        ok = abs(turns - round(turns)) * 400e4 <= WRAP_TOL_CC and -200e4 - WRAP_TOL_CC < rhs <= 200e4 + WRAP_TOL_CC
+        corr.maxstat("wrap_max_dev_cc", min(abs(rhs - want), abs(abs(rhs - want) - 400e4)))
+        if not ok:
+            hits.append((line, info, a, want, rhs))
+    corr.count("wrap_hits", len(hits))
+    if not hits:
+        return
+    # realise a Direction hit with reading, orientation, bearing all in [0, 400) as a network (circle rotation pair)
+    realised = 0
+    if gama_dir is None:
+        gama_dir = ctx.build_gama(sanitize=False, targets=("gama-local",))
+    for line, info, a, want, rhs in hits:
+        if realised >= 2:
+            break
+        if info["kind"] != "Direction" or not (0 <= info["v"] < 400 and 0 <= info["o"] < 400 and 0 <= info["bt"] < 400):
+            continue
+        if abs((a / 1e4 + 200.0) % 400.0 - 200.0) > 0.01:
+            continue
+        d = tmp / f"wrap{realised}"
+        d.mkdir(exist_ok=True)
+        net_a, spec = wrap_network(info)
+        try:
+            payload, bad = failure_payload(gama_dir / "gama-local", d, net_a, spec, "envelope")
+        except Exception as ex:
+            ctx.log("wrap realisation failed:", repr(ex))
+            continue
+        if bad:
+            realised += 1
+            payload["wrap_hit"] = {"op": line, "misclosure_cc": a, "expected_rhs_cc": want, "rhs_cc": rhs}
+            corr.fail("circle rotation onto a seam triple changes the adjustment (angular right-hand side not reduced to "
+                      "(-200, 200] gon): " + ", ".join(payload["fields"][:6]), payload, site="LocalLinearization::direction",
+                      detail=json.dumps(payload["violations"][:4], ensure_ascii=False))
+    corr.count("wrap_hits_realised", realised)
+    for line, info, a, want, rhs in hits[:1 if realised else 3]:
+        corr.fail("angular right-hand side is not the reduction of the misclosure to (-200, 200] gon",
+                  {"stream": "wrap", "ops": [line], "kind": info["kind"], "misclosure_cc": a, "expected_rhs_cc": want,
+                   "rhs_cc": rhs, "triple_gon": {k: info[k] for k in ("v", "o", "bt", "bf")}},
+                  site="LocalLinearization::" + info["kind"].lower(),
+                  detail=f"misclosure {a!r} cc: rhs {rhs!r}, expected {want!r}")
 
 
 # ------------------------------------------------------------------ (b) metamorphic search
@@ -531,6 +761,7 @@ def correspond(ctx, corr):
     try:
         correspond_input(ctx, corr, tmp)
         gd = ctx.build_gama(sanitize=False, targets=("gama-local",))
+        wrap_stream(ctx, corr, tmp, gd)
         search_meta(ctx, corr, ctx.size(400, 2500), tmp, gd / "gama-local")
         for k in ("translate", "rotate", "rotate-seam", "permute", "rename", "degrees", "swap", "mirror"):
             if corr.stats.get("pairs_" + k, 0) < 5:
@@ -548,14 +779,22 @@ def search(ctx, broken, corr):
         gd = ctx.build_gama(sanitize=False, targets=("gama-local",))
         c2 = Corr()
         ctx2 = Ctx(ctx.id, "thorough", ctx.seed)
+        # the wrap code of the generated linearisation changed / is not translatable, or anything else broke: the seam
+        # grid on the real LocalLinearization first (cheap), with other seeds, hits realised as networks
+        for k in range(3):
+            wrap_stream(Ctx(ctx.id, "thorough", ctx.seed + 77 * (k + 1)), c2, tmp, gd)
+            if c2.failures:
+                return c2.failures
         search_meta(ctx2, c2, 1200, tmp, gd / "gama-local")
-        if not c2.failures:
+        if not [f for f in c2.failures if classify_payload(f.replay) is None]:     # reproductions of known findings do not count
             # the input stream with many more cases (PointID order / conversion)
             ctx3 = Ctx(ctx.id, "thorough", ctx.seed + 1000)
             correspond_input(ctx3, c2, tmp)
             for d in c2.disagreements[:3]:
+                g = Path(d["case"][0].split()[1]) if d["case"] and d["case"][0].startswith("flip ") else None
                 c2.fail("model and implementation disagree on an input operation", {"stream": "input", "ops": d["case"],
-                                                                                      "impl": d["impl"], "model": d["model"]},
+                                                                                      "impl": d["impl"], "model": d["model"],
+                                                                                      "gkf": g.read_text() if g and g.exists() else None},
                         site="c07_input")
         return c2.failures
     finally:
@@ -566,13 +805,36 @@ def replay(ctx, payload):
     inp = payload.get("failure", {}).get("input", payload)
     tmp = Path(tempfile.mkdtemp(prefix="c07r-", dir=str(ctx.build)))
     try:
-        if inp.get("stream") == "input":
+        if inp.get("stream") == "wrap":
             exe = build_harness(ctx)
             impl, crashes = run_cases(exe, [inp["ops"]])
-            model, _ = run_cases(ctx.driver("drv_input"), [inp["ops"]])
+            print("impl :", impl[0], " expected rhs (cc):", inp.get("expected_rhs_cc"))
+            if crashes or not impl[0] or not impl[0][0].startswith("lin "):
+                return 1
+            rhs = hex2float(impl[0][0].split()[2])
+            return 0 if abs(rhs - inp["expected_rhs_cc"]) <= WRAP_TOL_CC or \
+                abs(abs(rhs) - 200e4) <= WRAP_TOL_CC and abs(abs(inp["expected_rhs_cc"]) - 200e4) <= WRAP_TOL_CC else 1
+        if inp.get("stream") == "input":
+            exe = build_harness(ctx)
+            ops = list(inp["ops"])
+            if inp.get("gkf") and ops and ops[0].startswith("flip "):      # the op line names a file: restore it
+                g = tmp / "replay.gkf"
+                g.write_text(inp["gkf"])
+                t = ops[0].split()
+                t[1] = str(g)
+                ops[0] = " ".join(t)
+            impl, crashes = run_cases(exe, [ops])
+            model, _ = run_cases(ctx.driver("drv_input"), [ops])
             print("impl :", impl[0])
             print("model:", model[0])
-            return 1 if (crashes or impl[0] != model[0]) else 0
+            rt = 1e-12 if ops and ops[0].startswith("flip ") else 0.0
+            same = len(impl[0]) == len(model[0]) and all(lines_equal(a, b, rtol=rt, atol=rt) for a, b in zip(impl[0], model[0]))
+            idem = True
+            if ops and ops[0].startswith("flip ") and impl[0]:
+                seg = [x.strip() for x in impl[0][0].split("#")]
+                idem = not (len(seg) == 3 and seg[0].startswith("ok ") and seg[0][3:].strip() != seg[1])
+                print("second remove_inconsistency is a no-op:", idem)
+            return 1 if (crashes or not same or not idem) else 0
         gd = ctx.build_gama(sanitize=False, targets=("gama-local",))
         p, bad = failure_payload(gd / "gama-local", tmp, inp["net"], inp["spec"], inp.get("algorithm", "envelope"))
         for b in bad[:20]:
